@@ -15,7 +15,7 @@ import math
 
 from sexp import Sym
 from props._graph_terms import FUNCS, build, gen_legacy_graph, has_ref_or_call, jsexp, node_sexp, to_sexp
-from props._c09x_inline import case_inl, gen_inl
+from props._c09x_inline import case_inl, case_renlit, gen_inl, gen_renlit
 
 PROP = "C09"
 READY = True
@@ -59,8 +59,11 @@ LEVEL_NOTE = ("Trusted: Lean kernel + standard axioms; hand transliterations tie
               "with list and set key containers, with and without dependencies=, inline_functions with inline_constants False/True, "
               "under an argument-purity oracle (graph, keys, dependencies unchanged by the call); legacy inline / inline_functions are "
               "diffed structurally (returned graph as a dict) against their transliterations under two set-iteration orders and on "
-              "the replace order observed on the real toposort call, whose TopoOK hypotheses are checked. No known finding is "
-              "left. Fixed in /repo: fuse(ave_width=inf) OverflowError; fuse_linear_task_spec with unrenamable keys stored the "
+              "the replace order observed on the real toposort call, whose TopoOK hypotheses are checked. ONE KNOWN FINDING (two signatures, "
+              "extension round): legacy fuse_linear / fuse with rename_keys=True store a fused chain under a new name that may occur "
+              "as a literal in some task; in a legacy graph that literal then is a reference to the fused task (cycle, or silently "
+              "changed value; refutation witnesses fuse_linear_renamed_literal_refuted / _silent_refuted, section renlit, "
+              "corpus/C09). Fixed in /repo: fuse(ave_width=inf) OverflowError; fuse_linear_task_spec with unrenamable keys stored the "
               "fused task under None; key_split(()) IndexError; fuse_linear_task_spec overwrote a task when the renamed key was "
               "taken (11f7d6c); substitute/fuse ignored a falsy new key (7e731f4); Alias.substitute ignored key= for an identity "
               "entry (3dbafa6); dict values were dependencies but not substituted/evaluated (ca6daad, 7bc9664); non-task tuples "
@@ -850,7 +853,7 @@ def case_rename(ctx, inp):
 
 
 CASES = {"opt": case_opt, "fn": case_fn, "spec": case_spec, "specfn": case_specfn, "shape": case_shape,
-         "rename": case_rename, "inl": case_inl}
+         "rename": case_rename, "inl": case_inl, "renlit": case_renlit}
 
 
 
@@ -944,6 +947,8 @@ def generate(ctx):
             yield "opt", inp
     # extension round: legacy inline / inline_functions against their Lean transliterations (function level)
     yield from gen_inl(ctx, rng, ctx.n(150))
+    # finding of the extension round: a fused chain renamed to a name that occurs as a literal in a task (16 witnesses)
+    yield from gen_renlit(ctx, rng)
     for _ in range(ctx.n(300)):
         n = rng.randint(1, 6)
         g = gen_legacy_graph(rng, n, rng.choice([(), ("dictref",), ("tupleref",), ("dictref", "tupleref")]), depth=3)
